@@ -552,6 +552,28 @@ def gen_pipeline_case(rng, free=False):
             "bd_rev": rng.random() < 0.3}
 
 
+def gen_strip_pipeline_case(rng):
+    """a strip (a few lines x many columns, or the converse) whose two images are unrelated, with a request that
+    does not contain 0 and a validation step that fills the pixels it rejects: long runs of rejected pixels along
+    the long side, filling paths longer than the short side"""
+    short, long_ = rng.randrange(3, 6), rng.randrange(24, 44)
+    rows, cols = (short, long_) if rng.random() < 0.6 else (long_, short)
+    measure = rng.choice(["sad", "ssd", "census", "zncc"])
+    win = 3 if measure == "census" else rng.choice([1, 3])
+    fam = {"measure": measure, "window": win, "subpix": 1, "rows": rows, "cols": cols,
+           "left": mu.gen_image(rng, rows, cols, 60, "rand"), "right": mu.gen_image(rng, rows, cols, 60, "rand"),
+           "mask_l": mu.gen_mask(rng, rows, cols) if rng.random() < 0.3 else None, "mask_r": None}
+    a = rng.choice([1, 2, -3, -4])
+    b = a + rng.randrange(1, 3)
+    p = [["matching_cost", {"matching_cost_method": measure, "window_size": win, "subpix": 1}],
+         ["disparity", {"disparity_method": "wta", "invalid_disparity": rng.choice([-9999, "NaN"])}],
+         ["validation", {"validation_method": "cross_checking_accurate", "cross_checking_threshold": rng.choice([0.0, 1.0]),
+                         "interpolated_disparity": rng.choice(["sgm", "sgm", "mc-cnn"])}]]
+    if rng.random() < 0.3:
+        p.append(["filter", {"filter_method": "median", "filter_size": 3}])
+    return {"kind": "pipeline", "fam": fam, "disp": [a, b], "grids": None, "pipeline": p, "bd_rev": False}
+
+
 POST_KINDS = ("disparity", "refinement", "filter", "validation")
 
 
@@ -736,4 +758,7 @@ def run(ctx):
             run_pipeline_case(ctx, pc)
     for i in range(44 if quick else 3000):
         run_pipeline_case(ctx, gen_pipeline_case(rng, free=(i % 2 == 1)))
+    for _ in range(12 if quick else 400):
+        ctx.count("strip_pipelines")
+        run_pipeline_case(ctx, gen_strip_pipeline_case(rng))
     ctx.stats["model_calls"] = model.calls
